@@ -148,6 +148,21 @@ static std::string runDTH(std::vector<std::pair<std::string, Args>>& ops)
 		else if (n == "rmif") call(out, snap, [&] { int mm = int(a[0]); return eq((long long)t.Remove([mm] (DT::ConstRowReference r) { return r[valCol] % mm == 0; })); });
 		else if (n == "clear") call(out, snap, [&] { t.Clear(); return std::string(); });
 		else if (n == "count") call(out, snap, [&] { return eq((long long)t.GetCount()); });
+		else if (n == "selectif") call(out, snap, [&] { int mm = int(a[0]); H[a[1]].kind = 2;
+			H[a[1]].sel.reset(new DT::Selection(t.Select([mm] (DT::ConstRowReference r) { return r[valCol] % mm == 0; }))); return eq((long long)H[a[1]].sel->GetCount()); });
+		else if (n == "selofsel" || n == "selsort" || n == "selsum" || n == "selrev" || n == "selrm" || n == "selcount" || n == "rmsel")
+		{
+			if (H[a[0]].kind != 2) { out += "U "; continue; }
+			DT::Selection& sel = *H[a[0]].sel;
+			if (n == "selofsel") call(out, snap, [&] { int mm = int(a[1]); DT::Selection s2(sel, [mm] (DT::ConstRowReference r) { return r[valCol] % mm == 0; });
+				long long c = (long long)s2.GetCount(); H[a[2]].kind = 2; H[a[2]].sel.reset(new DT::Selection(std::move(s2))); return eq(c); });
+			else if (n == "selsort") call(out, snap, [&] { sel.Sort(valCol); return std::string(); });
+			else if (n == "selsum") call(out, snap, [&] { long long sum = 0; for (auto r : sel) sum += r[valCol]; return eq(sum); });
+			else if (n == "selrev") call(out, snap, [&] { sel.Reverse(); return std::string(); });
+			else if (n == "selrm") call(out, snap, [&] { sel.Remove(size_t(a[1]), size_t(a[2])); return std::string(); });
+			else if (n == "selcount") call(out, snap, [&] { return eq((long long)sel.GetCount()); });
+			else call(out, snap, [&] { size_t c = t.GetCount(); t.Remove(sel.GetBegin(), sel.GetEnd()); return eq((long long)(c - t.GetCount())); });
+		}
 		else out += "?op ";
 	}
 	return out + "| " + vers() + " | " + contents();
